@@ -2115,6 +2115,47 @@ func genGlue() string {
 		sb.WriteString("def listenerUsageCalls : List String := " + leanStrList(calls) + "\n")
 	}
 
+	// C02: where the contexts of HTTP requests come from
+	{
+		var fields []string
+		for _, rel := range []string{"modules/caddyhttp/app.go", "modules/caddyhttp/server.go"} {
+			_, f := parseFile(rel)
+			ast.Inspect(f, func(x ast.Node) bool {
+				describeFn := func(e ast.Expr) string {
+					fl, ok := e.(*ast.FuncLit)
+					if !ok {
+						return exprText(e)
+					}
+					var rets []string
+					ast.Inspect(fl.Body, func(y ast.Node) bool {
+						if r, ok := y.(*ast.ReturnStmt); ok {
+							for _, res := range r.Results {
+								rets = append(rets, exprText(res))
+							}
+						}
+						return true
+					})
+					return "func returning " + strings.Join(rets, " / ")
+				}
+				switch t := x.(type) {
+				case *ast.KeyValueExpr:
+					if id, ok := t.Key.(*ast.Ident); ok && (id.Name == "BaseContext" || id.Name == "ConnContext") {
+						fields = append(fields, filepath.Base(rel)+" "+id.Name+": "+describeFn(t.Value))
+					}
+				case *ast.AssignStmt:
+					for i, l := range t.Lhs {
+						if se, ok := l.(*ast.SelectorExpr); ok && (se.Sel.Name == "BaseContext" || se.Sel.Name == "ConnContext") && i < len(t.Rhs) {
+							fields = append(fields, filepath.Base(rel)+" "+exprText(l)+" = "+describeFn(t.Rhs[i]))
+						}
+					}
+				}
+				return true
+			})
+		}
+		sb.WriteString("\n/-- modules/caddyhttp/app.go, server.go: every `BaseContext` / `ConnContext` of an http.Server (composite-literal\n    field or assignment) with what the function returns: the parents of the request contexts -/\n")
+		sb.WriteString("def httpServerContextFields : List String := " + leanStrList(fields) + "\n")
+	}
+
 	// C16: every directive / global option registered anywhere in the module (non-test files)
 	{
 		var dirs, opts []string
